@@ -1315,3 +1315,169 @@ class QuasiNewtonComputeResiduals(Contract):
             out += [(f"{l}({tag})", z3.Implies(guard, f)) for l, f in residuals_are(s1._current_residuals, s0._current_residuals, _map_args(rm),
                                                                                  s0._BaseMDASolver__resolved_variable_names, s1.io._IO__data, Y, tag=f"q{tag[:2]}")][:1]
         return out + configuration_kept(s1, s0)
+
+
+# ============================================================================ (B') INITIAL_SUBRESIDUAL_NORM: one (slice, reference) pair per resolved variable
+PAIR = TTuple(TVal, TReal)
+PAIRS = TList(PAIR)
+OPT_PAIRS = TOpt(PAIRS)
+P_SLICE, P_REF = PAIR.dt.accessor(0, 0), PAIR.dt.accessor(0, 1)
+SL_POS = SLICES.acc(4)
+
+
+def sub_norm(Rv, sl):
+    """||R[slice]||_2"""
+    return c06_norm(npf("getitem", Rv, sl))
+
+
+def pair_of(vm_vals, cv, x, Rv):
+    """(slice of the resolved variable x under converter cv, its initial sub-residual norm - 1.0 when that is exactly 0)"""
+    sl = SL_VALS(vm_vals[cv])[x]
+    nr = sub_norm(Rv, sl)
+    return PAIR.dt.mk(sl, z3.If(nr != 0, nr, z3.RealVal(1)))
+
+
+def pairs_are(Pn, Pe, vm, Rv, done=None, tag="pa"):
+    """The list (Pn, Pe) holds exactly one pair per resolved variable (selected by `done`): (A) every one has its pair, (B) there is no other pair."""
+    m_member, m_vals = vm[0], vm[1]
+    cv, x, i = z3.Const(f"c!{tag}", ConvS), z3.Const(f"x!{tag}", StrS), z3.Int(f"i!{tag}")
+    sel = z3.And(m_member[cv], SL_MEMBER(m_vals[cv])[x]) if done is None else z3.And(m_member[cv], SL_MEMBER(m_vals[cv])[x], done(cv, x))
+    return [("every-resolved-variable-has-its-(slice,reference)-pair", forall_pat([cv, x], z3.Implies(sel, z3.Exists([i], z3.And(0 <= i, i < Pn, Pe[i] == pair_of(m_vals, cv, x, Rv)))),
+                                                                                  SL_MEMBER(m_vals[cv])[x])),
+            ("every-pair-belongs-to-a-resolved-variable", forall_pat([i], z3.Implies(z3.And(0 <= i, i < Pn), z3.Exists([cv, x], z3.And(sel, Pe[i] == pair_of(m_vals, cv, x, Rv)))),
+                                                                    Pe[i])),
+            ("references-are-not-zero", forall_pat([i], z3.Implies(z3.And(0 <= i, i < Pn), P_REF(Pe[i]) != 0), Pe[i]))]
+
+
+def pairs_cover(Pn, Pe, vm, tag="pc"):
+    """Representation invariant of a STORED reference: one pair per resolved variable (its slice), non-zero references, at least one pair."""
+    m_member, m_vals = vm[0], vm[1]
+    cv, x, i = z3.Const(f"c!{tag}", ConvS), z3.Const(f"x!{tag}", StrS), z3.Int(f"i!{tag}")
+    sel = z3.And(m_member[cv], SL_MEMBER(m_vals[cv])[x])
+    return [("every-resolved-variable-has-a-pair", forall_pat([cv, x], z3.Implies(sel, z3.Exists([i], z3.And(0 <= i, i < Pn, P_SLICE(Pe[i]) == SL_VALS(m_vals[cv])[x]))),
+                                                             SL_MEMBER(m_vals[cv])[x])),
+            ("references-are-not-zero", forall_pat([i], z3.Implies(z3.And(0 <= i, i < Pn), P_REF(Pe[i]) != 0), Pe[i])),
+            ("at-least-one-pair", Pn >= 1)]
+
+
+def stored_pairs(sd):
+    """(is None, length, elements, term or None) of a `_scaling_data` view: an optional value, or the list object just stored"""
+    if getattr(sd, "obj", None) is not None:
+        return z3.BoolVal(False), sd.obj.n, sd.obj.elems, None
+    P = OPT_PAIRS.dt.get(sd.term)
+    return sd.is_none(), PAIRS.dt.accessor(0, 0)(P), PAIRS.dt.accessor(0, 1)(P), sd.term
+
+
+def quotient(Rv, pair):
+    return sub_norm(Rv, P_SLICE(pair)) / P_REF(pair)
+
+
+def _sub_parts(c):
+    """(residual vector, variable map AFTER the lazy computation as (member, vals, keys, n, pos) of the state in which the loops run)"""
+    s0 = c.old.self
+    return residual_vector(s0)
+
+
+@register
+class NormInitialSubresidualNorm(_NormVariant):
+    """INITIAL_SUBRESIDUAL_NORM: max over ALL resolved variables v of ||R[slice_v]||_2 / ref_v; the reference is one (slice_v, ref_v) pair per
+    resolved variable with ref_v = ||R_first[slice_v]||_2 (1.0 when that is exactly 0), fixed the first time and kept afterwards."""
+
+    variant = "initial_subresidual_norm"
+    member = "INITIAL_SUBRESIDUAL_NORM"
+    self_schema = _variant_schema("initial_subresidual_norm", OPT_PAIRS)
+    loops = {
+        0: LoopSpec(anchor="self.__resolved_variable_names_to_slices.values()", inv=lambda c, k: _sub_inv0(c, k), modifies=("scaling_data",), local_types={"scaling_data": PAIRS}),
+        1: LoopSpec(anchor="coupling_names_to_slices.values()", inv=lambda c, k: _sub_inv1(c, k), modifies=("scaling_data",), local_types={"scaling_data": PAIRS, "initial_norm": TReal}),
+        2: LoopSpec(anchor="scaling_data", inv=lambda c, k: _sub_inv2(c, k), modifies=("normalized_norms",), local_types={"normalized_norms": TList(TReal)}),
+    }
+
+    def rep_invariant(self, c):
+        s = c.old.self
+        none0, Pn, Pe, _ = stored_pairs(s._scaling_data)
+        vm = s._BaseMDASolver__resolved_variable_names_to_slices
+        gv = s.c06_variable_map
+        x, cv = z3.Const("x!sr", StrS), z3.Const("c!sr", ConvS)
+        out = [(f"inv:stored-pairs:{l}", z3.Implies(z3.Not(none0), f)) for l, f in pairs_cover(Pn, Pe, (vm.member, vm.vals), "rq")]
+        # coupled system: there is a resolved variable in the variable map (the cached one, or the one that will be computed)
+        out += [("coupled:the-variable-map-names-a-variable", z3.And(
+            z3.Implies(vm.n != 0, z3.Exists([cv, x], z3.And(vm.member[cv], SL_MEMBER(vm.vals[cv])[x]))),
+            z3.Exists([cv, x], z3.And(gv.member[cv], SL_MEMBER(gv.vals[cv])[x])))),
+            ("inv:a-stored-reference-means-the-maps-are-computed", z3.Implies(z3.Not(none0), vm.n != 0))]
+        return out
+
+    def table(self, c, Rv):
+        s0, s1 = c.old.self, c.new.self
+        none0, Pn0, Pe0, _ = stored_pairs(s0._scaling_data)
+        none1, Pn, Pe, _ = stored_pairs(s1._scaling_data)
+        vm1 = s1._BaseMDASolver__resolved_variable_names_to_slices
+        vmt = (vm1.member, vm1.vals)
+        N = s1.normed_residual
+        i, cv, x = z3.Int("i!st"), z3.Const("c!st", ConvS), z3.Const("x!st", StrS)
+        clauses = [("stored", z3.Not(none1)),
+                   ("kept-when-already-fixed", z3.Implies(z3.Not(none0), z3.And(Pn == Pn0, forall_pat([i], z3.Implies(z3.And(0 <= i, i < Pn0), Pe[i] == Pe0[i]), Pe[i]))))]
+        clauses += [(f"fixed-the-first-time:{l}", z3.Implies(none0, f)) for l, f in pairs_are(Pn, Pe, vmt, Rv, tag="t1")]
+        clauses += [(f"inv:{l}", f) for l, f in pairs_cover(Pn, Pe, vmt, "t2")]
+        clauses += [
+            ("normed-residual-bounds-every-pair", forall_pat([i], z3.Implies(z3.And(0 <= i, i < Pn), quotient(Rv, Pe[i]) <= N), Pe[i])),
+            ("normed-residual-is-attained", z3.Exists([i], z3.And(0 <= i, i < Pn, N == quotient(Rv, Pe[i])))),
+            ("every-resolved-variable-is-monitored", forall_pat([cv, x], z3.Implies(z3.And(vm1.member[cv], SL_MEMBER(vm1.vals[cv])[x]),
+                                                                                    z3.Exists([i], z3.And(0 <= i, i < Pn, P_SLICE(Pe[i]) == SL_VALS(vm1.vals[cv])[x], quotient(Rv, Pe[i]) <= N))),
+                                                               SL_MEMBER(vm1.vals[cv])[x])),
+        ]
+        return N, clauses
+
+
+def _sub_state(c):
+    s0 = c.old.self
+    s1 = c.locals["self"] if "self" in c.locals else c.new.self
+    vm = s1._BaseMDASolver__resolved_variable_names_to_slices
+    P = c.locals["scaling_data"]
+    return s0, s1, vm, P, residual_vector(s0)
+
+
+def _sub_inv0(c, k):
+    s0, s1, vm, P, Rv = _sub_state(c)
+    return pairs_are(P.n, P.elems, (vm.member, vm.vals), Rv, done=lambda q, x: vm.pos[q] < k, tag="s0")
+
+
+def _current_converter(view):
+    """The key under which the iterated dictionary value is stored: the local is the projection `vals[keys[k]]` of the outer iteration."""
+    t = view.member
+    while not (z3.is_select(t) and t.num_args() == 2 and t.arg(1).sort() == ConvS):
+        if t.num_args() == 0:
+            raise TypeError("cannot identify the converter of the iterated names-to-slices dictionary")
+        t = t.arg(0)
+    return t.arg(1)
+
+
+def _sub_inv1(c, k):
+    """Inner loop (names of the current converter).  P0 = the list when this loop was entered (constant during the loop): it holds exactly the pairs
+    of the previous converters; the pairs of the first k names of the current converter follow, at the explicit indices len(P0) + position."""
+    s0, s1, vm, P, Rv = _sub_state(c)
+    cur = _current_converter(c.locals["coupling_names_to_slices"])
+    P0 = c.pre_locals["scaling_data"]
+    base = P0.n
+    inner = vm.vals[cur]
+    x, i = z3.Const("x!s1o", StrS), z3.Int("i!s1a")
+    sl_keys, sl_n = SLICES.acc(3), SLICES.acc(2)
+    return [(f"previous-converters:{l}", f) for l, f in pairs_are(P0.n, P0.elems, (vm.member, vm.vals), Rv, done=lambda q, y: vm.pos[q] < vm.pos[cur], tag="s1p")] + [
+        ("exactly-one-pair-per-name-of-the-current-converter-so-far", P.n == base + k),
+        ("pairs-of-the-previous-converters-kept", forall_pat([i], z3.Implies(z3.And(0 <= i, i < base), P.elems[i] == P0.elems[i]), P.elems[i], P0.elems[i])),
+        ("every-resolved-variable-has-its-(slice,reference)-pair(current converter)",
+         forall_pat([x], z3.Implies(z3.And(SL_MEMBER(inner)[x], SL_POS(inner)[x] < k), P.elems[base + SL_POS(inner)[x]] == pair_of(vm.vals, cur, x, Rv)), SL_MEMBER(inner)[x])),
+        ("every-new-pair-belongs-to-a-name-of-the-current-converter",
+         forall_pat([i], z3.Implies(z3.And(base <= i, i < base + k), P.elems[i] == pair_of(vm.vals, cur, sl_keys(inner)[i - base], Rv)), P.elems[i])),
+        ("current-converter", z3.And(vm.member[cur], vm.pos[cur] >= 0, vm.keys[vm.pos[cur]] == cur)),
+        # (helper: positions and keys of the iterated dictionary - its order view)
+        ("names-of-the-current-converter-have-a-position", forall_pat([x], z3.Implies(SL_MEMBER(inner)[x], z3.And(0 <= SL_POS(inner)[x], SL_POS(inner)[x] < sl_n(inner),
+                                                                                                          sl_keys(inner)[SL_POS(inner)[x]] == x)), SL_MEMBER(inner)[x])),
+        ("positions-of-the-current-converter-have-a-name", forall_pat([i], z3.Implies(z3.And(0 <= i, i < sl_n(inner)), z3.And(SL_MEMBER(inner)[sl_keys(inner)[i]],
+                                                                                                                      SL_POS(inner)[sl_keys(inner)[i]] == i)), sl_keys(inner)[i]))]
+
+
+def _sub_inv2(c, k):
+    s0, s1, vm, P, Rv = _sub_state(c)
+    Q = c.locals["normalized_norms"]
+    i = z3.Int("i!s2")
+    return [("one-quotient-per-pair-so-far", z3.And(Q.n == k, forall_pat([i], z3.Implies(z3.And(0 <= i, i < k), Q.elems[i] == quotient(Rv, P.elems[i])), Q.elems[i], P.elems[i])))]
